@@ -15,13 +15,25 @@ DEPS = ["theories/Proofs/C07_proofs.vo", "theories/Gen/IssueFields.vo", "theorie
 STMTS = {"A": "assert zz_a\n", "E": "exec(zz_e)\n", "P": "zz_password = 'x'\n", "Q": "zz_password = 'é\"<y>'\n"}
 
 
+BASE_ID = {"fname": "f1.py", "test_id": "B101", "test": "t_B101", "text": "text-B101", "severity": "LOW", "confidence": "HIGH", "cwe": 703}
+# one identity per field of Issue.__eq__ that differs from the base identity in exactly that field (plus a second file/test pair)
+IDENTS = [{}, {"test_id": "B102"}, {"fname": "f2.py"}, {"confidence": "MEDIUM"}, {"severity": "MEDIUM"}, {"text": "text-other"},
+          {"cwe": 78}, {"test": "t_other"}]
+
+
+def ident_key(ident):
+    d = dict(BASE_ID, **ident)
+    return tuple(d[k] for k in sorted(d))
+
+
 def mk_issue(ident, lineno):
     from bandit.core import issue
-    fname, tid = ident
-    i = issue.Issue(severity="LOW", confidence="HIGH", text="text-" + tid, test_id=tid, lineno=lineno, cwe=703)
-    i.fname = fname
-    i.test = "t_" + tid
+    d = dict(BASE_ID, **ident)
+    i = issue.Issue(severity=d["severity"], confidence=d["confidence"], text=d["text"], test_id=d["test_id"], lineno=lineno, cwe=d["cwe"])
+    i.fname = d["fname"]
+    i.test = d["test"]
     i.linerange = [lineno]
+    i.col_offset = lineno % 7
     return i
 
 
@@ -33,16 +45,22 @@ def bissue_coq(i):
 
 def unit(R, rng, tier):
     from bandit.core import manager as bman
-    idents = [("f1.py", "B101"), ("f1.py", "B102"), ("f2.py", "B101")]
+    idents = IDENTS
     multisets = []
-    for n in range(0, 4 if tier == "quick" else 5):
+    for n in range(0, 4 if tier == "quick" else 4):
         for c in itertools.combinations_with_replacement(range(len(idents)), n):
             multisets.append(c)
     pairs = list(itertools.product(multisets, multisets))
     if tier == "quick":
         pairs = rng.sample(pairs, 300)
     else:
-        R.exhaustive = True
+        pairs = rng.sample(pairs, 12000)
+    # directed: a baseline entry that differs from the finding in exactly one identity field accounts for nothing
+    for i in range(len(idents)):
+        for j in range(len(idents)):
+            if i != j:
+                pairs.append(((i,), (j,)))
+                pairs.append(((i,), (i, j)))
     cases, descr = [], []
     for base_ms, cur_ms in pairs:
         base = [mk_issue(idents[k], 100 + j) for j, k in enumerate(base_ms)]
@@ -51,21 +69,22 @@ def unit(R, rng, tier):
         cur = [mk_issue(idents[k], 1 + j) for j, k in enumerate(order)]
         un = bman._compare_baseline_results(base, cur)
         cand = bman._find_candidate_matches(un, cur)
-        inp = {"baseline": [idents[k] for k in base_ms], "current": [idents[k] for k in order]}
+        inp = {"baseline": [dict(BASE_ID, **idents[k]) for k in base_ms], "current": [dict(BASE_ID, **idents[k]) for k in order]}
         R.case(("unit", base_ms, tuple(order)), nontrivial=bool(base_ms) and bool(cur_ms),
                sample=dict(inp, unmatched=[(u.fname, u.test_id, u.lineno) for u in un]))
         R.count("unit")
         # statement: per identity, reported iff it occurs more often now than in the baseline, with all occurrences as candidates
         for k, ident in enumerate(idents):
             nb, nc = base_ms.count(k), order.count(k)
-            rep = [u for u in un if (u.fname, u.test_id) == ident]
+            rep = [u for u in un if ident_key({"fname": u.fname, "test_id": u.test_id, "test": u.test, "text": u.text, "severity": u.severity,
+                                                 "confidence": u.confidence, "cwe": u.cwe.id}) == ident_key(ident)]
             if (nc > nb) != bool(rep):
                 R.violations.append({"what": "identity %s occurs %d times in the baseline and %d times now but is %s" % (
-                    ident, nb, nc, "reported" if rep else "withheld"), "input": inp,
+                    dict(BASE_ID, **ident), nb, nc, "reported" if rep else "withheld"), "input": inp,
                     "observed": [(u.fname, u.test_id) for u in un], "signature": None})
             for u in rep:
                 if len(cand[u]) != nc:
-                    R.violations.append({"what": "identity %s is reported with %d candidates, it has %d occurrences" % (ident, len(cand[u]), nc),
+                    R.violations.append({"what": "identity %s is reported with %d candidates, it has %d occurrences" % (dict(BASE_ID, **ident), len(cand[u]), nc),
                                          "input": inp, "observed": len(cand[u]), "signature": None})
         cases.append(("(%s, %s)" % (L.lst([bissue_coq(i) for i in base], "bissue"), L.lst([bissue_coq(i) for i in cur], "bissue")),
                       L.lst(["(%s, %s)" % (bissue_coq(u), L.lst([bissue_coq(c) for c in cand[u]], "bissue")) for u in un], "bissue * list bissue")))
